@@ -210,7 +210,7 @@ func TestC07(t *testing.T) {
 					}
 				}
 			case 2: // unknown parameter
-				c.ExtraQuery = append(c.ExtraQuery, KV{rapid.SampledFrom([]string{"nosuchfield", "nested.nope", "x.y.z", "string_value.sub"}).Draw(t, "c7_unknown"), "1"})
+				c.ExtraQuery = append(c.ExtraQuery, KV{rapid.SampledFrom([]string{"nosuchfield", "nested.nope", "x.y.z", "string_value.sub", "string_value.", "msg_value.", ".string_value", "msg_value..string_value", ".", "recursive.recursive."}).Draw(t, "c7_unknown"), "1"})
 				sc.Note = "unknown_param"
 			case 3: // repeated values appended
 				for _, f := range []string{"double_list", "enum_list", "string_list", "int32_list"} {
